@@ -327,6 +327,12 @@ static vf::Result enumerate(const Case &c, Info *info, long only_k = 0)
 		if (g_st) g_st->current_case(case_text(c) + "# failing allocation k=" + std::to_string(k) + " of " + std::to_string(r0.allocs) + "\n");
 		RunOut r = execute(c, k);
 		if (info) { info->forks++; if (r.halfway) info->halfway++; }
+		if (r.ok && r.foreign) {
+			// a block the allocator does not know (any more) was handed to its free(): released twice on the error path, or obtained elsewhere
+			r.ok = false;
+			r.sig = "C18:block-released-twice-after-allocation-failure";
+			r.what = std::to_string(r.foreign) + " call(s) of the configured free() / realloc() with a block that is not (or no longer) allocated";
+		}
 		if (r.ok) continue;
 		Result fr = Result::fail(r.sig, "allocation #" + std::to_string(k) + " of " + std::to_string(r0.allocs) + " fails: " + r.what);
 		if (g_st && g_st->is_known(fr.sig)) { g_st->on_failure(case_text(c) + "# k=" + std::to_string(k), fr); continue; }
